@@ -339,7 +339,7 @@ class Gen:
                 k = self.rng.random()
                 if k < 0.25 and env.all("int"):
                     # read every visible variable back (after whatever the earlier forms did)
-                    forms.append("(list %s)" % " ".join(sorted(env.all("int"))))
+                    forms.append("(list %s)" % " ".join(sorted(env.all("int") + env.all("list"))))
                 elif k < 0.7:
                     forms.append(self.tick(self.int_expr(env, depth)))
                 elif k < 0.85:
@@ -439,3 +439,193 @@ def fault_program(rng, kind, context, k=0, nbefore=3, nafter=2):
         forms.append(g.tick(g.int_expr(env, 2)))
     forms.append("(fa2 counter (vector-ref cell 0))")
     return forms, idx
+
+
+# ------------------------------------------------------------------------------------------
+# C03: histories over shared bindings and vectors
+# ------------------------------------------------------------------------------------------
+def history_program(rng, steps=40):
+    """a history of top-level forms over up to 5 counters/accumulators made by up to 3 generator
+    procedures, global variables, and up to 4 vectors aliased through variables, arguments, lists,
+    other vectors and captured references. returns (forms, stats)"""
+    forms = []
+    stats = {"set!": 0, "closure-call": 0, "vector-set!": 0, "alias": 0, "probe": 0, "literal-mutation": 0,
+             "container": 0}
+    gens = []
+    shapes = [
+        ("(define (%s init) (define n init) (lambda (d) (set! n (+ n d)) n))", "acc"),
+        ("(define %s (lambda (init) ((lambda (n) (lambda (d) (set! n (+ n d)) n)) init)))", "acc"),
+        ("(define (%s init) (define n init) (cons (lambda (d) (set! n (+ n d)) n) (lambda () n)))", "pair"),
+        ("(define (%s init . more) (define n init) (define (bump d) (set! n (+ n d)) n) bump)", "acc"),
+        ("(define (%s init) (define cell (vector init)) (lambda (d) (vector-set! cell 0 (+ d (vector-ref cell 0))) (vector-ref cell 0)))", "acc"),
+        ("(define (%s . args) (lambda (d) (set! args (cons d args)) args))", "acc"),
+        ("(define %s (lambda args (lambda (d) (set! args (cons d args)) args)))", "acc"),
+        ("(define (%s init . rest) (lambda (d) (set! rest (cons (+ d init) rest)) rest))", "acc"),
+    ]
+    for g in range(rng.randint(1, 3)):
+        shape, kind = rng.choice(shapes)
+        name = "mk%d" % g
+        forms.append(shape % name)
+        gens.append((name, kind))
+    forms.append("(define total 0)")
+    forms.append("(define (add-total! d) (set! total (+ total d)) total)")
+    counters = []       # (name, kind)
+    vecs = []           # variable names bound to vectors
+    lits = []
+    lists = []          # variables bound to lists that contain vectors
+    globs = ["total"]
+
+    def some_vec():
+        return rng.choice(vecs)
+
+    for step in range(steps):
+        k = rng.random()
+        if (k < 0.12 and len(counters) < 5) or not counters:
+            g, kind = rng.choice(gens)
+            c = "c%d" % len(counters)
+            forms.append("(define %s (%s %d))" % (c, g, rng.randint(0, 9)))
+            counters.append((c, kind))
+        elif k < 0.30:
+            c, kind = rng.choice(counters)
+            d = rng.randint(1, 5)
+            forms.append("((car %s) %d)" % (c, d) if kind == "pair" else "(%s %d)" % (c, d))
+            stats["closure-call"] += 1
+            stats["set!"] += 1
+        elif k < 0.36:
+            c, kind = rng.choice(counters)
+            forms.append("((cdr %s))" % c if kind == "pair" else "(%s 0)" % c)
+            stats["probe"] += 1
+        elif k < 0.42:
+            if rng.random() < 0.5:
+                forms.append("(add-total! %d)" % rng.randint(1, 9))
+            else:
+                forms.append("(set! total (* total 2))")
+            stats["set!"] += 1
+        elif k < 0.46:
+            g = "g%d" % len(globs)
+            forms.append("(define %s %d)" % (g, rng.randint(0, 9)))
+            globs.append(g)
+        elif k < 0.50:
+            forms.append("(list %s)" % " ".join(globs))
+            stats["probe"] += 1
+        elif (k < 0.58 and len(vecs) < 8) or not vecs:
+            v = "v%d" % len(vecs)
+            how = rng.random()
+            if how < 0.4 or not vecs:
+                forms.append("(define %s (vector %s))" % (v, " ".join(str(rng.randint(0, 9)) for _ in range(rng.randint(1, 4)))))
+            elif how < 0.6:
+                forms.append("(define %s %s)" % (v, some_vec()))          # alias through a variable
+                stats["alias"] += 1
+            elif how < 0.75:
+                forms.append("(define %s (make-vector 2 %s))" % (v, some_vec()))   # both cells alias the fill
+                stats["container"] += 1
+            elif how < 0.9:
+                forms.append("(define %s (vector %s %s))" % (v, some_vec(), some_vec()))
+                stats["container"] += 1
+            else:
+                forms.append("(define %s ((lambda args (car args)) %s 1 2))" % (v, some_vec()))   # through a rest parameter
+                stats["alias"] += 1
+            vecs.append(v)
+        elif k < 0.70:
+            v = some_vec()
+            i = rng.randint(0, 1)
+            val = rng.choice([str(rng.randint(10, 99)), some_vec(), "total"])
+            forms.append("(if (< %d (vector-length %s)) (vector-set! %s %d %s) 'short)" % (i, v, v, i, val))
+            stats["vector-set!"] += 1
+        elif k < 0.76:
+            # mutate through a cell of a container, if it holds a vector
+            v = some_vec()
+            forms.append("(if (vector? (vector-ref %s 0)) (vector-set! (vector-ref %s 0) 0 %d) 'plain)" % (v, v, rng.randint(100, 199)))
+            stats["vector-set!"] += 1
+        elif k < 0.82:
+            a, b = some_vec(), some_vec()
+            forms.append("((lambda (p q) (vector-set! p 0 %d) (vector-ref q 0)) %s %s)" % (rng.randint(200, 299), a, b))
+            stats["vector-set!"] += 1
+            stats["alias"] += 1
+        elif k < 0.86:
+            l = "l%d" % len(lists)
+            forms.append("(define %s (list %s %s))" % (l, some_vec(), some_vec()))
+            lists.append(l)
+            stats["container"] += 1
+        elif k < 0.90 and lists:
+            l = rng.choice(lists)
+            forms.append("(vector-set! (car (cdr %s)) 0 %d)" % (l, rng.randint(300, 399)))
+            stats["vector-set!"] += 1
+        elif k < 0.93:
+            if not lits or rng.random() < 0.5:
+                lv = "lit%d" % len(lits)
+                forms.append("(define %s '#(1 2 3))" % lv)
+                lits.append(lv)
+            lv = rng.choice(lits)
+            forms.append("(vector-set! %s 0 9)" % lv)
+            stats["literal-mutation"] += 1
+        elif k < 0.96:
+            a, b = some_vec(), some_vec()
+            forms.append("(eq? %s %s)" % (a, b))
+            stats["probe"] += 1
+        else:
+            forms.append("(list %s)" % " ".join(vecs + lits))
+            stats["probe"] += 1
+    forms.append("(list %s)" % " ".join(globs))
+    forms.append("(list %s)" % " ".join(vecs + lits + lists))
+    for c, kind in counters:
+        forms.append("((cdr %s))" % c if kind == "pair" else "(%s 0)" % c)
+    return forms, stats
+
+
+# ------------------------------------------------------------------------------------------
+# C02: loops whose recursive call sits in a composition of tail contexts
+# ------------------------------------------------------------------------------------------
+TAIL_CONTEXTS = {
+    "body": "%s",
+    "if-then": "(if #t %s 0)",
+    "if-else": "(if #f 0 %s)",
+    "begin": "(begin 1 %s)",
+    "let": "(let ((z 1)) z %s)",
+    "let*": "(let* ((z 1) (w z)) w %s)",
+    "cond-clause": "(cond (#f 0) (#t 1 %s))",
+    "cond-else": "(cond (#f 0) (else 1 %s))",
+    "case-clause": "(case 2 ((1) 0) ((2 3) 1 %s) (else 0))",
+    "case-else": "(case 9 ((1) 0) (else 1 %s))",
+    "and": "(and 1 2 %s)",
+    "or": "(or #f #f %s)",
+    "when": "(when #t 1 %s)",
+    "unless": "(unless #f 1 %s)",
+    "lambda-body": "((lambda (q) q %s) 1)",
+    "apply": "(apply (lambda () %s) '())",
+}
+LOOP_SHAPES = ["self", "mutual2", "mutual3", "higher-order", "variadic", "closure-returned",
+               "operator-call", "operator-if", "operator-car"]
+
+
+def loop_program(shape, contexts):
+    """returns (definitions, call template with %d for N). The loop counts i up to n and returns i."""
+    def wrap(t):
+        for c in reversed(contexts):
+            t = TAIL_CONTEXTS[c] % t
+        return t
+    if shape == "self":
+        return ["(define (loop i n) (if (< i n) %s i))" % wrap("(loop (+ i 1) n)")], "(loop 0 %d)"
+    if shape == "mutual2":
+        return ["(define (la i n) (if (< i n) %s i))" % wrap("(lb (+ i 1) n)"),
+                "(define (lb i n) (if (< i n) %s i))" % wrap("(la (+ i 1) n)")], "(la 0 %d)"
+    if shape == "mutual3":
+        return ["(define (la i n) (if (< i n) %s i))" % wrap("(lb (+ i 1) n)"),
+                "(define (lb i n) (if (< i n) %s i))" % wrap("(lc (+ i 1) n)"),
+                "(define (lc i n) (if (< i n) (la (+ i 1) n) i))"], "(la 0 %d)"
+    if shape == "higher-order":
+        return ["(define (loop f i n) (if (< i n) %s i))" % wrap("(f f (+ i 1) n)")], "(loop loop 0 %d)"
+    if shape == "variadic":
+        return ["(define (loop i . r) (if (< i (car r)) %s i))" % wrap("(loop (+ i 1) (car r) 7)")], "(loop 0 %d)"
+    if shape == "closure-returned":
+        return ["(define (mk) (define (l i n) (if (< i n) %s i)) l)" % wrap("(l (+ i 1) n)"),
+                "(define loop (mk))"], "(loop 0 %d)"
+    # the operator of the tail call is itself computed
+    if shape == "operator-call":
+        return ["(define (step) (lambda (i n) (if (< i n) %s i)))" % wrap("((step) (+ i 1) n)")], "((step) 0 %d)"
+    if shape == "operator-if":
+        return ["(define (la i n) (if (< i n) %s i))" % wrap("((if (< i 5) lb la) (+ i 1) n)"),
+                "(define (lb i n) (if (< i n) %s i))" % wrap("((if #t la lb) (+ i 1) n)")], "(la 0 %d)"
+    if shape == "operator-car":
+        return ["(define (loop fs i n) (if (< i n) %s i))" % wrap("((car fs) fs (+ i 1) n)")], "(loop (list loop) 0 %d)"
+    raise ValueError(shape)
